@@ -75,6 +75,101 @@ spec fn idx_ok(ds: &SimpleDSet, i: int, seen: Seq<bool>, oi: Seq<usize>, n: int)
         oi[x] < n && oi[ds.sop(i, x)] == oi[x] && oi[ds.sop(i + 1, x)] == oi[x]
 }
 
+// ---- cycle structure of x |-> sop(i+1, sop(i, x)) ----
+spec fn stepf(ds: &SimpleDSet, i: int, x: int) -> int { ds.sop(i + 1, ds.sop(i, x)) }
+
+spec fn iter(ds: &SimpleDSet, i: int, x: int, k: nat) -> int
+    decreases k
+{
+    if k == 0 { x } else { stepf(ds, i, iter(ds, i, x, (k - 1) as nat)) }
+}
+
+proof fn lemma_iter_range(ds: &SimpleDSet, i: int, x: int, k: nat)
+    requires ds.wf(), 0 <= i < ds.dim, 1 <= x <= ds.size
+    ensures 1 <= iter(ds, i, x, k) <= ds.size
+    decreases k
+{
+    if k > 0 {
+        lemma_iter_range(ds, i, x, (k - 1) as nat);
+        let y = iter(ds, i, x, (k - 1) as nat);
+        assert(1 <= ds.sop(i, y) <= ds.size);
+        assert(1 <= ds.sop(i + 1, ds.sop(i, y)) <= ds.size);
+    }
+}
+
+proof fn lemma_stepf_inj(ds: &SimpleDSet, i: int, x: int, y: int)
+    requires ds.wf(), 0 <= i < ds.dim, 1 <= x <= ds.size, 1 <= y <= ds.size, stepf(ds, i, x) == stepf(ds, i, y)
+    ensures x == y
+{
+    let a = ds.sop(i, x);
+    let b = ds.sop(i, y);
+    assert(1 <= a <= ds.size && 1 <= b <= ds.size);
+    assert(ds.sop(i + 1, ds.sop(i + 1, a)) == a);
+    assert(ds.sop(i + 1, ds.sop(i + 1, b)) == b);
+    assert(a == b);
+    assert(ds.sop(i, a) == x);
+    assert(ds.sop(i, b) == y);
+}
+
+// no earlier return to d  ==>  the first n+1 iterates are pairwise distinct
+proof fn lemma_iter_distinct(ds: &SimpleDSet, i: int, d: int, n: nat, j: nat, l: nat)
+    requires ds.wf(), 0 <= i < ds.dim, 1 <= d <= ds.size, j < l <= n,
+        forall|k: nat| 0 < k <= n ==> #[trigger] iter(ds, i, d, k) != d,
+    ensures iter(ds, i, d, j) != iter(ds, i, d, l)
+    decreases j
+{
+    if j == 0 {
+    } else {
+        lemma_iter_distinct(ds, i, d, n, (j - 1) as nat, (l - 1) as nat);
+        lemma_iter_range(ds, i, d, (j - 1) as nat);
+        lemma_iter_range(ds, i, d, (l - 1) as nat);
+        if iter(ds, i, d, j) == iter(ds, i, d, l) {
+            lemma_stepf_inj(ds, i, iter(ds, i, d, (j - 1) as nat), iter(ds, i, d, (l - 1) as nat));
+        }
+    }
+}
+
+// pigeonhole: a duplicate-free sequence of values in 1..=n has length <= n
+proof fn lemma_pigeon(s: Seq<int>, n: int)
+    requires n >= 0, forall|k: int| 0 <= k < s.len() ==> 1 <= #[trigger] s[k] <= n,
+        forall|a: int, b: int| 0 <= a < b < s.len() ==> s[a] != s[b],
+    ensures s.len() <= n
+    decreases n
+{
+    if s.len() == 0 {
+    } else if n == 0 {
+        assert(1 <= s[0] <= 0);
+    } else {
+        if exists|p: int| 0 <= p < s.len() && s[p] == n {
+            let p = choose|p: int| 0 <= p < s.len() && s[p] == n;
+            let t = s.remove(p);
+            assert forall|k: int| 0 <= k < t.len() implies 1 <= #[trigger] t[k] <= n - 1 by {
+                if k < p { assert(t[k] == s[k]); assert(s[k] != s[p]); } else { assert(t[k] == s[k + 1]); assert(s[p] != s[k + 1]); }
+            }
+            assert forall|a: int, b: int| 0 <= a < b < t.len() implies t[a] != t[b] by {
+                let a2 = if a < p { a } else { a + 1 };
+                let b2 = if b < p { b } else { b + 1 };
+                assert(t[a] == s[a2] && t[b] == s[b2]);
+            }
+            lemma_pigeon(t, n - 1);
+        } else {
+            assert forall|k: int| 0 <= k < s.len() implies 1 <= #[trigger] s[k] <= n - 1 by { }
+            lemma_pigeon(s, n - 1);
+        }
+    }
+}
+
+proof fn lemma_steps_bound(ds: &SimpleDSet, i: int, d: int, n: nat)
+    requires ds.wf(), 0 <= i < ds.dim, 1 <= d <= ds.size,
+        forall|k: nat| 0 < k <= n ==> #[trigger] iter(ds, i, d, k) != d,
+    ensures n + 1 <= ds.size
+{
+    let s = Seq::new(n + 1, |k: int| iter(ds, i, d, k as nat));
+    assert forall|k: int| 0 <= k < s.len() implies 1 <= #[trigger] s[k] <= ds.size by { lemma_iter_range(ds, i, d, k as nat); }
+    assert forall|a: int, b: int| 0 <= a < b < s.len() implies s[a] != s[b] by { lemma_iter_distinct(ds, i, d, n, a as nat, b as nat); }
+    lemma_pigeon(s, ds.size as int);
+}
+
 #[verifier::opaque]
 spec fn orb_ok(ds: &SimpleDSet, j: int, oi: Seq<usize>, n: int) -> bool {
     forall|x: int| 1 <= x <= ds.size ==>
@@ -97,6 +192,142 @@ proof fn lemma_orb_ok_intro(ds: &SimpleDSet, i: int, seen: Seq<bool>, oi: Seq<us
     assert forall|x: int| 1 <= x <= ds.size implies
         (#[trigger] oi[x]) < n && oi[ds.sop(i, x)] == oi[x] && oi[ds.sop(i + 1, x)] == oi[x] by {
         assert(seen[x]);
+    }
+}
+
+
+// ---------- inner-loop invariant as one predicate over abstract sequences ----------
+spec fn inner_inv(ds: &SimpleDSet, i: int, d: int, e: int, steps: int,
+                  seen0: Seq<bool>, oi0: Seq<usize>, seen: Seq<bool>, oi: Seq<usize>, nr: usize) -> bool {
+    &&& seen0.len() == ds.size + 1 && oi0.len() == ds.size + 1 && seen.len() == ds.size + 1 && oi.len() == ds.size + 1
+    &&& 1 <= d <= ds.size && 1 <= e <= ds.size
+    &&& closed(ds, i, seen0) && !seen0[d] && !seen0[e]
+    &&& forall|x: int| 1 <= x <= ds.size && seen0[x] ==> #[trigger] seen[x] && oi[x] == oi0[x]
+    &&& forall|x: int| 1 <= x <= ds.size && #[trigger] seen[x] && !seen0[x] ==> {
+            &&& oi[x] == nr
+            &&& (seen[ds.sop(i, x)] || x == e || ds.sop(i, x) == d)
+            &&& (seen[ds.sop(i + 1, x)] || ds.sop(i + 1, x) == d)
+            &&& !seen0[ds.sop(i, x)] && !seen0[ds.sop(i + 1, x)]
+        }
+    &&& (steps == 0 ==> e == d)
+    &&& (steps > 0 ==> seen[e] && seen[ds.sop(i, d)])
+}
+
+spec fn final_inv(ds: &SimpleDSet, i: int, d: int,
+                  seen0: Seq<bool>, oi0: Seq<usize>, seen: Seq<bool>, oi: Seq<usize>, nr: usize) -> bool {
+    &&& seen.len() == ds.size + 1 && oi.len() == ds.size + 1
+    &&& seen[d]
+    &&& forall|x: int| 1 <= x <= ds.size && seen0[x] ==> #[trigger] seen[x] && oi[x] == oi0[x]
+    &&& forall|x: int| 1 <= x <= ds.size && #[trigger] seen[x] && !seen0[x] ==> {
+            &&& oi[x] == nr
+            &&& seen[ds.sop(i, x)]
+            &&& seen[ds.sop(i + 1, x)]
+            &&& !seen0[ds.sop(i, x)] && !seen0[ds.sop(i + 1, x)]
+        }
+}
+
+proof fn lemma_inner_step(ds: &SimpleDSet, i: int, d: int, e: int, steps: int,
+                          seen0: Seq<bool>, oi0: Seq<usize>, seen: Seq<bool>, oi: Seq<usize>, nr: usize)
+    requires ds.wf(), 0 <= i < ds.dim, steps >= 0,
+        inner_inv(ds, i, d, e, steps, seen0, oi0, seen, oi, nr),
+        steps > 0 ==> e != d,
+    ensures ({
+        let ei = ds.sop(i, e);
+        let e2 = ds.sop(i + 1, ei);
+        let seen2 = seen.update(ei, true).update(e2, true);
+        let oi2 = oi.update(ei, nr).update(e2, nr);
+        &&& 1 <= ei <= ds.size && 1 <= e2 <= ds.size
+        &&& (e2 != d ==> inner_inv(ds, i, d, e2, steps + 1, seen0, oi0, seen2, oi2, nr))
+        &&& (e2 == d ==> final_inv(ds, i, d, seen0, oi0, seen2, oi2, nr))
+    })
+{
+    let ei = ds.sop(i, e);
+    let e2 = ds.sop(i + 1, ei);
+    let seen2 = seen.update(ei, true).update(e2, true);
+    let oi2 = oi.update(ei, nr).update(e2, nr);
+    assert(1 <= ei <= ds.size && ds.sop(i, ei) == e);
+    assert(1 <= e2 <= ds.size && ds.sop(i + 1, e2) == ei);
+    if seen0[ei] { assert(seen0[ds.sop(i, ei)]); }
+    if seen0[e2] { assert(seen0[ds.sop(i + 1, e2)]); }
+    assert(!seen0[ei] && !seen0[e2]);
+    assert forall|x: int| 1 <= x <= ds.size && seen0[x] implies #[trigger] seen2[x] && oi2[x] == oi0[x] by {
+        assert(seen[x]);
+        assert(x != ei && x != e2);
+    }
+    // facts about the partners of the two fresh elements
+    let a1 = ds.sop(i + 1, ei);   // == e2
+    let b1 = ds.sop(i, e2);
+    let b2 = ds.sop(i + 1, e2);   // == ei
+    assert(1 <= b1 <= ds.size && ds.sop(i, b1) == e2);
+    if seen0[b1] { assert(seen0[ds.sop(i, b1)]); }
+    assert(!seen0[b1]);
+    if seen0[e] { }
+    assert forall|x: int| 1 <= x <= ds.size && #[trigger] seen2[x] && !seen0[x] implies ({
+            &&& oi2[x] == nr
+            &&& (seen2[ds.sop(i, x)] || x == e2 || ds.sop(i, x) == d)
+            &&& (seen2[ds.sop(i + 1, x)] || ds.sop(i + 1, x) == d)
+            &&& !seen0[ds.sop(i, x)] && !seen0[ds.sop(i + 1, x)]
+        }) by {
+        let sx = ds.sop(i, x);
+        let tx = ds.sop(i + 1, x);
+        assert(1 <= sx <= ds.size && 1 <= tx <= ds.size);
+        if x == e2 {
+        } else if x == ei {
+            // sop(i, ei) == e : either e seen before (steps>0), or e == d (steps == 0)
+        } else {
+            assert(seen[x]);
+            // previously: seen[sx] || x == e || sx == d ; now x == e is covered since sop(i,e)=ei is seen2
+            if x == e { assert(sx == ei); }
+        }
+    }
+    if e2 != d {
+        assert(inner_inv(ds, i, d, e2, steps + 1, seen0, oi0, seen2, oi2, nr));
+    } else {
+        assert forall|x: int| 1 <= x <= ds.size && #[trigger] seen2[x] && !seen0[x] implies ({
+            &&& oi2[x] == nr
+            &&& seen2[ds.sop(i, x)]
+            &&& seen2[ds.sop(i + 1, x)]
+            &&& !seen0[ds.sop(i, x)] && !seen0[ds.sop(i + 1, x)]
+        }) by {
+            let sx = ds.sop(i, x);
+            let tx = ds.sop(i + 1, x);
+            assert(1 <= sx <= ds.size && 1 <= tx <= ds.size);
+            if x == e2 { // == d : sop(i,d) is seen (steps>0) or equals ei (steps==0, e==d)
+            } else if x == ei {
+            } else {
+                assert(seen[x]);
+                if x == e { assert(sx == ei); }
+            }
+        }
+    }
+}
+
+proof fn lemma_final_to_outer(ds: &SimpleDSet, i: int, d: int,
+                  seen0: Seq<bool>, oi0: Seq<usize>, seen: Seq<bool>, oi: Seq<usize>, nr: usize, n: int)
+    requires ds.wf(), 0 <= i < ds.dim, 1 <= d <= ds.size, nr < n + 1, nr == n,
+        seen0.len() == ds.size + 1, oi0.len() == ds.size + 1,
+        closed(ds, i, seen0), idx_ok(ds, i, seen0, oi0, n),
+        final_inv(ds, i, d, seen0, oi0, seen, oi, nr),
+    ensures closed(ds, i, seen), idx_ok(ds, i, seen, oi, n + 1)
+{
+    assert forall|x: int| 1 <= x <= ds.size && #[trigger] seen[x] implies seen[ds.sop(i, x)] && seen[ds.sop(i + 1, x)] by {
+        if seen0[x] {
+            assert(seen0[ds.sop(i, x)] && seen0[ds.sop(i + 1, x)]);
+            assert(1 <= ds.sop(i, x) <= ds.size && 1 <= ds.sop(i + 1, x) <= ds.size);
+        }
+    }
+    assert forall|x: int| 1 <= x <= ds.size && #[trigger] seen[x] implies
+        oi[x] < n + 1 && oi[ds.sop(i, x)] == oi[x] && oi[ds.sop(i + 1, x)] == oi[x] by {
+        let a = ds.sop(i, x);
+        let b = ds.sop(i + 1, x);
+        assert(1 <= a <= ds.size && 1 <= b <= ds.size);
+        if seen0[x] {
+            assert(seen0[a] && seen0[b]);
+            assert(seen[a] && seen[b]);
+        } else {
+            assert(seen[a] && seen[b]);
+            assert(!seen0[a] && !seen0[b]);
+        }
     }
 }
 
@@ -150,45 +381,30 @@ fn collect_orbits(ds: &SimpleDSet)
                 let ghost oi0 = orbit_index@;
 
                 loop
+                    invariant_except_break
+                        forall|k: nat| 0 < k <= steps ==> #[trigger] iter(ds, i as int, d as int, k) != d,
+                        inner_inv(ds, i as int, d as int, e as int, steps as int, seen0, oi0[i as int]@, seen@, orbit_index@[i as int]@, orbit_nr),
                     invariant
                         ds.wf(), 0 <= i < ds.dim, 1 <= d <= ds.size, 1 <= e <= ds.size,
                         orbit_nr == orbit_rs@.len(),
                         orbit_rs@.len() == orbit_is_chain@.len(),
-                        seen@.len() == ds.size + 1,
-                        orbit_index@.len() == ds.dim,
+                        seen@.len() == ds.size + 1, seen0.len() == ds.size + 1,
+                        orbit_index@.len() == ds.dim, oi0.len() == ds.dim,
                         forall|j: int| 0 <= j < ds.dim ==> (#[trigger] orbit_index@[j])@.len() == ds.size + 1,
                         forall|j: int| 0 <= j < ds.dim && j != i ==> #[trigger] orbit_index@[j] == oi0[j],
-                        steps < usize::MAX,
-                        // old part untouched
-                        closed(ds, i as int, seen0), !seen0[d as int], !seen0[e as int],
-                        forall|x: int| 1 <= x <= ds.size && seen0[x] ==> #[trigger] seen@[x] && orbit_index@[i as int]@[x] == oi0[i as int]@[x],
-                        // new part
-                        forall|x: int| 1 <= x <= ds.size && #[trigger] seen@[x] && !seen0[x] ==> {
-                            &&& orbit_index@[i as int]@[x] == orbit_nr
-                            &&& (seen@[ds.sop(i as int, x)] || x == e || ds.sop(i as int, x) == d)
-                            &&& (seen@[ds.sop(i + 1, x)] || ds.sop(i + 1, x) == d)
-                            &&& !seen0[ds.sop(i as int, x)] && !seen0[ds.sop(i + 1, x)]
-                        },
-                        !seen@[d as int] ==> (steps == 0 ==> e == d),
-                        steps > 0 ==> seen@[e as int],
-                        steps > 0 ==> seen@[ds.sop(i as int, d as int)],
+                        e == iter(ds, i as int, d as int, steps as nat),
                     ensures
-                        e == d, steps >= 1,
-                        orbit_nr == orbit_rs@.len(),
-                        orbit_rs@.len() == orbit_is_chain@.len(),
-                        seen@.len() == ds.size + 1,
-                        orbit_index@.len() == ds.dim,
-                        forall|j: int| 0 <= j < ds.dim ==> (#[trigger] orbit_index@[j])@.len() == ds.size + 1,
-                        forall|j: int| 0 <= j < ds.dim && j != i ==> #[trigger] orbit_index@[j] == oi0[j],
-                        forall|x: int| 1 <= x <= ds.size && seen0[x] ==> #[trigger] seen@[x] && orbit_index@[i as int]@[x] == oi0[i as int]@[x],
-                        seen@[d as int],
-                        forall|x: int| 1 <= x <= ds.size && #[trigger] seen@[x] && !seen0[x] ==> {
-                            &&& orbit_index@[i as int]@[x] == orbit_nr
-                            &&& seen@[ds.sop(i as int, x)]
-                            &&& seen@[ds.sop(i + 1, x)]
-                            &&& !seen0[ds.sop(i as int, x)] && !seen0[ds.sop(i + 1, x)]
-                        },
+                        steps >= 1,
+                        iter(ds, i as int, d as int, steps as nat) == d,
+                        forall|k: nat| 0 < k < steps ==> #[trigger] iter(ds, i as int, d as int, k) != d,
+                        final_inv(ds, i as int, d as int, seen0, oi0[i as int]@, seen@, orbit_index@[i as int]@, orbit_nr),
                 {
+                    proof {
+                        lemma_steps_bound(ds, i as int, d as int, steps as nat);
+                        lemma_inner_step(ds, i as int, d as int, e as int, steps as int, seen0, oi0[i as int]@, seen@, orbit_index@[i as int]@, orbit_nr);
+                    }
+                    let ghost seen_b = seen@;
+                    let ghost oi_b = orbit_index@[i as int]@;
                     let ei = ds.op_unchecked(i, e);
                     is_chain = is_chain || (ei == e);
                     orbit_index[i][ei] = orbit_nr;
@@ -200,6 +416,10 @@ fn collect_orbits(ds: &SimpleDSet)
                     seen[e] = true;
 
                     steps += 1;
+                    proof {
+                        assert(seen@ =~= seen_b.update(ei as int, true).update(e as int, true));
+                        assert(orbit_index@[i as int]@ =~= oi_b.update(ei as int, orbit_nr).update(e as int, orbit_nr));
+                    }
 
                     if e == d {
                         break;
@@ -207,29 +427,7 @@ fn collect_orbits(ds: &SimpleDSet)
                 }
 
                 proof {
-                    let ii = i as int;
-                    assert forall|x: int| 1 <= x <= ds.size && #[trigger] seen@[x] implies seen@[ds.sop(ii, x)] && seen@[ds.sop(ii + 1, x)] by {
-                        if seen0[x] {
-                            assert(seen0[ds.sop(ii, x)] && seen0[ds.sop(ii + 1, x)]);
-                            assert(1 <= ds.sop(ii, x) <= ds.size && 1 <= ds.sop(ii + 1, x) <= ds.size);
-                        }
-                    }
-                    assert(closed(ds, ii, seen@));
-                    assert forall|x: int| 1 <= x <= ds.size && #[trigger] seen@[x] implies
-                        orbit_index@[ii]@[x] < orbit_rs@.len() + 1
-                        && orbit_index@[ii]@[ds.sop(ii, x)] == orbit_index@[ii]@[x]
-                        && orbit_index@[ii]@[ds.sop(ii + 1, x)] == orbit_index@[ii]@[x] by {
-                        let a = ds.sop(ii, x);
-                        let b = ds.sop(ii + 1, x);
-                        assert(1 <= a <= ds.size && 1 <= b <= ds.size);
-                        if seen0[x] {
-                            assert(seen0[a] && seen0[b]);
-                            assert(seen@[a] && seen@[b]);
-                        } else {
-                            assert(seen@[a] && seen@[b]);
-                            assert(!seen0[a] && !seen0[b]);
-                        }
-                    }
+                    lemma_final_to_outer(ds, i as int, d as int, seen0, oi0[i as int]@, seen@, orbit_index@[i as int]@, orbit_nr, orbit_rs@.len() as int);
                     assert forall|j: int| 0 <= j < i implies orb_ok(ds, j, (#[trigger] orbit_index@[j])@, orbit_rs@.len() as int + 1) by {
                         assert(orbit_index@[j] == oi0[j]);
                         lemma_orb_ok_mono(ds, j, oi0[j]@, orbit_rs@.len() as int, orbit_rs@.len() as int + 1);
